@@ -24,45 +24,61 @@ BOUNDS = {
     'history length': 'unbounded: each step is decided from an arbitrary state satisfying the '
                       'inductive invariant',
 }
-OUTSIDE = ['manual increment_flow_control_window calls mixed with automatic management '
-           '(the property is conditional on the application using acknowledge_received_data)',
-           'applications that acknowledge more bytes than they received']
+OUTSIDE = ['applications that acknowledge more bytes than they received']
 ASSUMPTIONS = [
     'inductive invariant per window manager: cur + P + U == max, P >= 0, U >= 0, '
     '0 <= max <= 2^31-1, max - cur = P + U <= 2^31-1 (window_consumed leaves cur >= 0, every '
     'other step shrinks or keeps max - cur), and (U == 0 and max > 0 implies cur > 0); where U (ghost) = flow-controlled bytes received and not yet passed to '
     'acknowledge_received_data.  It is established by WindowManager.__init__ (cur == max, P == U '
     '== 0) and re-proved by every step harness below',
+    'manual/ shards: the application additionally calls increment_flow_control_window.  '
+    'Invariant there: cur <= max <= cur + P + U, 0 <= max <= 2^31-1, max - cur <= 2^31-1, '
+    'P == 0 or 2P + 2 <= max (acknowledged bytes that did not trigger an update stayed below '
+    'max // 2), max >= the acknowledged INITIAL_WINDOW_SIZE; assumed before and re-proved '
+    'after window_consumed, process_bytes, window_opened, acknowledge_received_data, DATA, '
+    'increment_flow_control_window and the SETTINGS ACK',
     'liveness is decided as a state predicate: U == 0 and max > 0 implies cur > 0 after every '
     'step (then no acknowledgement is outstanding that could still open the window)',
 ]
 
 
-def _sym_wm(tag, wm):
+def _sym_wm(tag, wm, manual=False):
+    """manual=False: the application only ever uses acknowledge_received_data
+    (cur + P + U == max).  manual=True: it also calls increment_flow_control_window, which
+    raises cur (and max with it) without touching P and U: max <= cur + P + U, cur <= max."""
     mx = sym_int(tag + '_max', 0, INT31, default=65535)
     cur = sym_int(tag + '_cur', -INT31 - 1, INT31, default=65535)
-    p = sym_int(tag + '_P', 0, 2 ** 33, default=0)
-    u = sym_int(tag + '_U', 0, 2 ** 33, default=0)
-    assume_z(s_and(s_eq(cur + p + u, mx), s_le(p + u, INT31),
-                   s_implies(s_and(s_eq(u, 0), s_lt(0, mx)), s_lt(0, cur))))
+    p = sym_int(tag + '_P', 0, 2 ** 40 if manual else 2 ** 33, default=0)
+    u = sym_int(tag + '_U', 0, 2 ** 40 if manual else 2 ** 33, default=0)
+    live = s_implies(s_and(s_eq(u, 0), s_lt(0, mx)), s_lt(0, cur))
+    if manual:
+        # J: bytes acknowledged without an update stayed below the threshold max // 2
+        assume_z(s_and(s_le(cur, mx), s_le(mx, cur + p + u), s_le(mx - cur, INT31), live,
+                       s_or(s_eq(p, 0), s_le(2 * p + 2, mx))))
+    else:
+        assume_z(s_and(s_eq(cur + p + u, mx), s_le(p + u, INT31), live))
     h2h.Adapter.set_wm(wm, cur, mx, p)
     return cur, mx, p, u
 
 
-def _inv(wm, u, tag):
+def _inv(wm, u, tag, manual=False):
     c, m, p = wm.current_window_size, wm.max_window_size, wm._bytes_processed
-    check(s_and(s_eq(c + p + u, m), s_le(0, p), s_le(0, m), s_le(m, INT31)),
+    rel = s_and(s_le(c, m), s_le(m, c + p + u)) if manual else s_eq(c + p + u, m)
+    check(s_and(rel, s_le(0, p), s_le(0, m), s_le(m, INT31)),
           tag + '-invariant', (c, m, p, u))
     check(s_and(s_le(c, m), s_le(c, INT31)), tag + '-window-above-max', (c, m))
-    check(s_le(p + u, INT31), tag + '-invariant-outstanding', (p, u))
+    check(s_le(m - c, INT31) if manual else s_le(p + u, INT31),
+          tag + '-invariant-outstanding', (c, m, p, u))
+    if manual:
+        check(s_or(s_eq(p, 0), s_le(2 * p + 2, m)), tag + '-invariant-threshold', (p, m))
     check(s_implies(s_and(s_eq(u, 0), s_lt(0, m)), s_lt(0, c)), tag + '-stalled',
           (c, m, p, u))
 
 
-def h_wm_consume():
+def h_wm_consume(manual=False):
     def h():
         wm = WindowManager(0)
-        cur, mx, p, u = _sym_wm('w', wm)
+        cur, mx, p, u = _sym_wm('w', wm, manual)
         size = sym_int('size', 0, 2 ** 24, default=5)
         try:
             wm.window_consumed(size)
@@ -72,15 +88,15 @@ def h_wm_consume():
         else:
             note('consumed')
             check(s_le(size, cur), 'consume-overrun-accepted', (cur, size))
-            _inv(wm, u + size, 'consume')
+            _inv(wm, u + size, 'consume', manual)
     return h
 
 
-def h_wm_process():
+def h_wm_process(manual=False):
     def h():
         wm = WindowManager(0)
-        cur, mx, p, u = _sym_wm('w', wm)
-        k = sym_int('ack', 0, 2 ** 33, default=5)
+        cur, mx, p, u = _sym_wm('w', wm, manual)
+        k = sym_int('ack', 0, 2 ** 40 if manual else 2 ** 33, default=5)
         assume_z(s_le(k, u))
         inc = wm.process_bytes(k)
         if inc:
@@ -91,7 +107,28 @@ def h_wm_process():
         else:
             note('no-update')
             check(wm.current_window_size == cur, 'window-moved-without-update', None)
-        _inv(wm, u - k, 'process')
+        _inv(wm, u - k, 'process', manual)
+    return h
+
+
+def h_wm_open():
+    """manual credit (increment_flow_control_window / a positive settings delta)"""
+    def h():
+        wm = WindowManager(0)
+        cur, mx, p, u = _sym_wm('w', wm, True)
+        size = sym_int('size', 1, INT31, default=5)
+        try:
+            wm.window_opened(size)
+        except h2.exceptions.FlowControlError:
+            note('overflow')
+            check(s_lt(INT31, cur + size), 'open-rejected-fitting', (cur, size))
+            check(s_and(wm.current_window_size == cur, wm.max_window_size == mx),
+                  'open-raise-changes-window', None)
+        else:
+            note('opened')
+            check(s_le(cur + size, INT31), 'open-overflow-accepted', (cur, size))
+            check(wm.current_window_size == cur + size, 'open-not-applied', None)
+            _inv(wm, u, 'open', True)
     return h
 
 
@@ -107,17 +144,17 @@ def _witness(client):
     return me
 
 
-def h_ack_glue(client):
+def h_ack_glue(client, manual=False):
     """acknowledge_received_data on the connection + an open stream"""
     def h():
         with h2h.native():
             me = _witness(client)
         A = h2h.Adapter
         cw, sw = A.conn_wm(me), A.stream_wm(me, 1)
-        cc, cm, cp, cu = _sym_wm('conn', cw)
-        sc, sm, sp, su = _sym_wm('s1', sw)
+        cc, cm, cp, cu = _sym_wm('conn', cw, manual)
+        sc, sm, sp, su = _sym_wm('s1', sw, manual)
         assume_z(s_le(su, cu))
-        k = sym_int('ack', 0, 2 ** 33, default=40000)
+        k = sym_int('ack', 0, 2 ** 40 if manual else 2 ** 33, default=40000)
         assume_z(s_le(k, su))
         out = models.Out(me)
         me.acknowledge_received_data(k, 1)
@@ -136,8 +173,35 @@ def h_ack_glue(client):
               (ci, si, k))
         check(s_and(cw.current_window_size == cc + ci, sw.current_window_size == sc + si),
               'window-differs-from-emitted-updates', None)
-        _inv(cw, cu - k, 'conn')
-        _inv(sw, su - k, 'stream')
+        _inv(cw, cu - k, 'conn', manual)
+        _inv(sw, su - k, 'stream', manual)
+    return h
+
+
+def h_increment_glue(client, on_stream):
+    """a manual increment_flow_control_window next to automatic management: refused
+    exactly on overflow, otherwise the general invariant survives"""
+    def h():
+        with h2h.native():
+            me = _witness(client)
+        A = h2h.Adapter
+        cw, sw = A.conn_wm(me), A.stream_wm(me, 1)
+        cc, cm, cp, cu = _sym_wm('conn', cw, True)
+        sc, sm, sp, su = _sym_wm('s1', sw, True)
+        inc = sym_int('inc', 1, INT31, default=100)
+        out = models.Out(me)
+        target = sc if on_stream else cc
+        try:
+            me.increment_flow_control_window(inc, stream_id=1 if on_stream else None)
+        except h2.exceptions.FlowControlError:
+            note('overflow')
+            check(s_lt(INT31, target + inc), 'increment-rejected-fitting', (target, inc))
+            check(out.nbytes() == 0, 'raise-emits', None)
+        else:
+            note('credited')
+            check(s_le(target + inc, INT31), 'increment-overflow-accepted', (target, inc))
+        _inv(cw, cu, 'conn', True)
+        _inv(sw, su, 'stream', True)
     return h
 
 
@@ -168,15 +232,15 @@ def h_ack_gone_stream(client):
     return h
 
 
-def h_data(client):
+def h_data(client, manual=False):
     """received DATA on an open stream: both managers consume, nothing is credited"""
     def h():
         with h2h.native():
             me = _witness(client)
         A = h2h.Adapter
         cw, sw = A.conn_wm(me), A.stream_wm(me, 1)
-        cc, cm, cp, cu = _sym_wm('conn', cw)
-        sc, sm, sp, su = _sym_wm('s1', sw)
+        cc, cm, cp, cu = _sym_wm('conn', cw, manual)
+        sc, sm, sp, su = _sym_wm('s1', sw, manual)
         data = sym_bytes('n', 0, 2 ** 24 - 300, default=10)
         pad = sym_int('pad', 0, 255, default=2)
         f = hf.DataFrame(1)
@@ -193,14 +257,16 @@ def h_data(client):
         else:
             note('received')
             check(out.nbytes() == 0, 'data-emits', None)
-            _inv_nolive(cw, cu + fcl, 'conn')
-            _inv_nolive(sw, su + fcl, 'stream')
+            _inv_nolive(cw, cu + fcl, 'conn', manual)
+            _inv_nolive(sw, su + fcl, 'stream', manual)
     return h
 
 
-def _inv_nolive(wm, u, tag):
+def _inv_nolive(wm, u, tag, manual=False):
     c, m, p = wm.current_window_size, wm.max_window_size, wm._bytes_processed
-    check(s_and(s_eq(c + p + u, m), s_le(0, p), s_le(0, m), s_le(m, INT31)),
+    rel = s_and(s_le(c, m), s_le(m, c + p + u), s_le(m - c, INT31)) if manual else \
+        s_eq(c + p + u, m)
+    check(s_and(rel, s_le(0, p), s_le(0, m), s_le(m, INT31)),
           tag + '-invariant', (c, m, p, u))
 
 
@@ -262,7 +328,7 @@ def h_data_closed(client, how):
     return h
 
 
-def h_settings_ack(client):
+def h_settings_ack(client, manual=False):
     """local INITIAL_WINDOW_SIZE change acknowledged by the peer"""
     def h():
         with h2h.native():
@@ -270,8 +336,12 @@ def h_settings_ack(client):
         sw = h2h.Adapter.stream_wm(me, 1)
         old = sym_int('old', 0, INT31, default=65535)
         new = sym_int('new', 0, INT31, default=10)
-        sc, sm, sp, su = _sym_wm('s1', sw)
-        assume_z(s_eq(sm, old))          # the stream's maximum is the acknowledged setting
+        sc, sm, sp, su = _sym_wm('s1', sw, manual)
+        if manual:
+            # manual increments only ever raise the maximum above the acknowledged setting
+            assume_z(s_le(old, sm))
+        else:
+            assume_z(s_eq(sm, old))      # the stream's maximum is the acknowledged setting
         h2h.Adapter.set_local_setting(me, SettingCodes.INITIAL_WINDOW_SIZE, old)
         me.update_settings({SettingCodes.INITIAL_WINDOW_SIZE: new})
         ack = hf.SettingsFrame(0)
@@ -289,14 +359,23 @@ def h_settings_ack(client):
             if isinstance(fr, hf.WindowUpdateFrame) and fr.stream_id == 1:
                 si = si + fr.window_increment
         check(sw.current_window_size == sc + (new - old) + si, 'settings-window', None)
-        check(sw.max_window_size == new, 'settings-max', (sw.max_window_size, new))
-        _inv(sw, su, 'stream')
+        if manual:
+            check(s_le(new, sw.max_window_size), 'settings-max-below-setting',
+                  (sw.max_window_size, new))
+        else:
+            check(sw.max_window_size == new, 'settings-max', (sw.max_window_size, new))
+        _inv(sw, su, 'stream', manual)
     return h
 
 
 def shards(tier, seed):
     out = [Shard('wm/window_consumed', h_wm_consume(), expect=['consumed', 'overrun']),
-           Shard('wm/process_bytes', h_wm_process(), expect=['update', 'no-update'])]
+           Shard('wm/process_bytes', h_wm_process(), expect=['update', 'no-update']),
+           Shard('manual/wm/window_consumed', h_wm_consume(True),
+                 expect=['consumed', 'overrun']),
+           Shard('manual/wm/process_bytes', h_wm_process(True),
+                 expect=['update', 'no-update']),
+           Shard('manual/wm/window_opened', h_wm_open(), expect=['opened', 'overflow'])]
     for client in (True, False):
         r = 'client' if client else 'server'
         out.append(Shard('acknowledge/%s' % r, h_ack_glue(client), budget=120,
@@ -308,4 +387,14 @@ def shards(tier, seed):
                          expect=['absorbed', 'overrun']))
         out.append(Shard('data_on_ended_stream/%s' % r, h_data_closed(client, 'ended')))
         out.append(Shard('settings_ack/%s' % r, h_settings_ack(client), expect=['applied']))
+        out.append(Shard('manual/acknowledge/%s' % r, h_ack_glue(client, True), budget=120,
+                         expect=['acked']))
+        out.append(Shard('manual/recv_data/%s' % r, h_data(client, True),
+                         expect=['received', 'overrun']))
+        out.append(Shard('manual/settings_ack/%s' % r, h_settings_ack(client, True),
+                         expect=['applied', 'overflow']))
+        for on_stream in (False, True):
+            out.append(Shard('manual/increment/%s/%s' % (r, 'stream' if on_stream else 'conn'),
+                             h_increment_glue(client, on_stream),
+                             expect=['credited', 'overflow']))
     return out
